@@ -44,8 +44,13 @@ def epochs(ds, salt, n_epochs=EPOCHS):
     return out
 
 
+SHARE_RNG = [False]
+
+
 def fresh(node):
-    return B.build(node, B.Env())
+    env = B.Env()
+    env.share_rng = SHARE_RNG[0]
+    return B.build(node, env)
 
 
 def has_op(node, ops):
@@ -79,8 +84,16 @@ def unfreeze(node):
 
 
 def check(case):
+    SHARE_RNG[0] = bool(case.get('share_rng'))
+    try:
+        return check_(case)
+    finally:
+        SHARE_RNG[0] = False
+
+
+def check_(case):
     node = case['ast']
-    desc = f'program: {progs.show(node)}'
+    desc = f'program: {progs.show(node)}' + (' (all random stages share one generator object)' if case.get('share_rng') else '')
     if ev(node).iter_taint:
         return []  # key iteration over duplicate keys may refuse (documented); nothing to compare
     np.random.seed(5)
@@ -378,6 +391,8 @@ def st_case(draw):
         except Invalid:
             node = {'op': 'map', 'fn': 0, 'in': {'op': 'reshuffle', 'seed': 1, 'in': src}}
         case = {'ast': unfreeze(node)}
+        if draw(st.integers(0, 3)) == 0:
+            case['share_rng'] = True
         if draw(st.booleans()):
             w = draw(st.integers(1, 3))
             case['prefetch'] = [w, draw(st.integers(w, 4))]
@@ -416,7 +431,10 @@ def run_shard(tier, idx, nshards, rec, known):
             cls = {'op:' + o for o in progs.ops(node)}
             if case.get('prefetch'):
                 cls.add(f'prefetch-workers:{case["prefetch"][0]}')
+            if case.get('share_rng'):
+                cls.add('shared-generator-object')
             rec.case({'program': progs.show(node), 'prefetch': case.get('prefetch'), 'ast': node,
+                      'share_rng': bool(case.get('share_rng')),
                       'epochs_differ': len({repr(e) for e in A}) > 1},
                      progs.size(node) >= 3 and len(A) >= 2, cls, size=progs.size(node))
         finally:
